@@ -10,7 +10,8 @@
    the internal nodes of the component hold no gradient yet, and [x] holds an arbitrary prior
    gradient [gx0] (none, or a tensor of x's shape: contributions of other consumers of x).
    The theorem runs the model's own [process_node] over the nodes of the component in the order
-   in which [bp_topo] meets them (its depth-first reverse post-order: [comp_order_is_dfs] below),
+   in which [bp_topo] meets them (its depth-first reverse post-order; checked on instances by the
+   examples [*_order_ex] below),
      fold_left (process_node rd (fun _ g => g)) [y; internal nodes ...] (hh, log, Ok tt)
    and concludes: the fold is [Ok] (no rule evaluation, no accumulation fails), the structure of
    the heap is unchanged, every node outside {x} ∪ internals keeps its gradient, and x holds a
@@ -663,6 +664,19 @@ Proof.
   intros Ht. unfold reluD. rewrite Rmax_left by lra. rewrite (eqt_same thr 0 Ht). field.
 Qed.
 
+
+(* the recorded near-tie finding D10: within the threshold (0 < |x_i| <= thr) the rule hands over
+   gy/2 although Relu is differentiable there with derivative 1 or 0; excluded by the guards above *)
+Lemma reluD_near v : 0 <= thr -> Rabs v <= thr -> reluD v = / 2.
+Proof.
+  intros Ht Hv. unfold reluD.
+  assert (E2 : eqtR v 0 = 1) by (apply eqt_near; rewrite Rabs_minus_0; exact Hv).
+  assert (E1 : eqtR (Rmax 0 v) v = 1).
+  { unfold Rmax. destruct (Rle_dec 0 v) as [L|N]; [apply eqt_same; exact Ht|].
+    apply eqt_near. replace (0 - v) with (- v) by ring. rewrite Rabs_Ropp. exact Hv. }
+  rewrite E1, E2. field.
+Qed.
+
 Theorem relu_grad rd (h h1 hh : heap) x y name xv gy log :
   0 <= thr ->
   valOf h x = Some xv -> wf xv -> trackedOf h x = true -> dirtyOf h x = false ->
@@ -1020,3 +1034,175 @@ Proof.
 Qed.
 
 End R.
+
+(* ===================================================================================== *)
+(* 3. examples: the theorems instantiated on a tiny heap whose input is an INTERIOR node     *)
+(* ===================================================================================== *)
+Module GradActExamples.
+Section Ex.
+Variable draw : bool -> nat -> R.
+Local Hint Extern 0 (Scalar R) => exact (R_scalar 0 draw) : typeclass_instances.
+Notation heap := (@heap R).
+Notation idseal := (fun (_ : option nat) (g : tensor R) => g).
+
+Definition vec2 (a b : R) : tensor R := mkT [2%nat] (Vec [Sc a; Sc b]).
+Lemma wf_vec2 a b : wf (vec2 a b).
+Proof. split; cbn; repeat constructor. Qed.
+Lemma valid2 idx : validIdx [2%nat] idx -> idx = [0%nat] \/ idx = [1%nat].
+Proof.
+  intros H. inversion H as [|i d r ds Hi Hr]; subst. inversion Hr; subst.
+  destruct i as [|[|i]]; [left; reflexivity|right; reflexivity|lia].
+Qed.
+
+(* w is a tracked leaf, x = w.Scale(2) an INTERIOR node, then the activation of x *)
+Definition exw : tensor R := vec2 3 (-4).
+Definition exg : tensor R := vec2 5 7.
+Definition exh0 : heap := fst (leaf [] exw true (Some 0%nat)).
+Definition exh : heap := fst (h_scale exh0 0 2 (Some 1%nat)).
+Definition exx : tensor R := vec2 (2 * 3) (2 * -4).
+
+Example exh_x : valOf exh 1 = Some exx /\ trackedOf exh 1 = true /\ dirtyOf exh 1 = false /\ edgesOf exh 1 = [(0%nat, RScale 1 2)].
+Proof. repeat split. Qed.
+
+Definition th1 : heap := fst (tanh_forward exh [Some 1%nat] (Some 2%nat)).
+Lemma th1_eq : tanh_forward exh [Some 1%nat] (Some 2%nat) = (th1, Ok 2%nat).
+Proof. reflexivity. Qed.
+
+Example tanh_grad_ex rd :
+  exists hh' gx,
+    fold_left (process_node rd idseal) [2%nat] (setGrad th1 2 (Some exg), [], Ok tt) = (hh', [(2%nat, exg)], Ok tt) /\
+    gradOf hh' 1 = Some gx /\
+    elt gx [0%nat] = 5 * (1 - tanh (2 * 3) ^ 2) /\ elt gx [1%nat] = 7 * (1 - tanh (2 * -4) ^ 2).
+Proof.
+  destruct (tanh_grad 0 draw rd exh th1 (setGrad th1 2 (Some exg)) 1 2 (Some 2%nat) exx exg [])
+    as (hh' & gx & Ef & _ & _ & Hg & _ & _ & F).
+  - reflexivity.
+  - apply wf_vec2.
+  - reflexivity.
+  - reflexivity.
+  - exact th1_eq.
+  - apply sameS_setGrad.
+  - reflexivity.
+  - apply wf_vec2.
+  - reflexivity.
+  - exact I.
+  - exists hh', gx. split; [exact Ef|]. split; [exact Hg|]. split.
+    + rewrite (F [0%nat]) by (repeat constructor). cbn. ring.
+    + rewrite (F [1%nat]) by (repeat constructor). cbn. ring.
+Qed.
+
+(* Relu at  x = (6, -8)  with the exact equality (thr = 0): factors 1 and 0 *)
+Definition rh1 : heap := fst (relu_forward exh [Some 1%nat] (Some 2%nat)).
+Lemma rh1_eq : relu_forward exh [Some 1%nat] (Some 2%nat) = (rh1, Ok 3%nat).
+Proof. reflexivity. Qed.
+
+Example relu_order_ex : topoOrder rh1 3 = [3; 2; 1; 0]%nat.
+Proof. reflexivity. Qed.
+
+Example relu_grad_ex rd :
+  exists hh' gx gz,
+    fold_left (process_node rd idseal) [3; 2]%nat (setGrad rh1 3 (Some exg), [], Ok tt)
+      = (hh', [(2%nat, gz); (3%nat, exg)], Ok tt) /\
+    gradOf hh' 1 = Some gx /\ elt gx [0%nat] = 5 /\ elt gx [1%nat] = 0.
+Proof.
+  destruct (relu_grad 0 draw rd exh rh1 (setGrad rh1 3 (Some exg)) 1 3 (Some 2%nat) exx exg [])
+    as (hh' & gx & gz & Ef & _ & _ & Hg & _ & _ & F).
+  - lra.
+  - reflexivity.
+  - apply wf_vec2.
+  - reflexivity.
+  - reflexivity.
+  - exact rh1_eq.
+  - apply sameS_setGrad.
+  - reflexivity.
+  - apply wf_vec2.
+  - reflexivity.
+  - reflexivity.
+  - exact I.
+  - exists hh', gx, gz. split; [exact Ef|]. split; [exact Hg|]. split.
+    + destruct (F [0%nat]) as (_ & P & _); [repeat constructor|]. cbn in P. rewrite P by lra. cbn. clear. lra.
+    + destruct (F [1%nat]) as (_ & _ & N & _); [repeat constructor|]. cbn in N. rewrite N by lra. cbn. clear. lra.
+Qed.
+
+(* the tie x = 0 exactly: half of the upstream gradient *)
+Definition zh0 : heap := fst (leaf [] (vec2 0 0) true (Some 0%nat)).
+Definition zh1 : heap := fst (relu_forward zh0 [Some 0%nat] (Some 1%nat)).
+Lemma zh1_eq : relu_forward zh0 [Some 0%nat] (Some 1%nat) = (zh1, Ok 2%nat).
+Proof. reflexivity. Qed.
+
+Example relu_tie_ex rd :
+  exists hh' gx gz,
+    fold_left (process_node rd idseal) [2; 1]%nat (setGrad zh1 2 (Some exg), [], Ok tt)
+      = (hh', [(1%nat, gz); (2%nat, exg)], Ok tt) /\
+    gradOf hh' 0 = Some gx /\ elt gx [0%nat] = 5 / 2 /\ elt gx [1%nat] = 7 / 2.
+Proof.
+  destruct (relu_grad 0 draw rd zh0 zh1 (setGrad zh1 2 (Some exg)) 0 2 (Some 1%nat) (vec2 0 0) exg [])
+    as (hh' & gx & gz & Ef & _ & _ & Hg & _ & _ & F);
+    [lra|reflexivity|apply wf_vec2|reflexivity|reflexivity|exact zh1_eq|apply sameS_setGrad|reflexivity
+    |apply wf_vec2|reflexivity|reflexivity|exact I|].
+  exists hh', gx, gz. split; [exact Ef|]. split; [exact Hg|]. split.
+  - destruct (F [0%nat]) as (_ & _ & _ & Z); [repeat constructor|]. cbn in Z. rewrite Z by reflexivity. cbn. clear. lra.
+  - destruct (F [1%nat]) as (_ & _ & _ & Z); [repeat constructor|]. cbn in Z. rewrite Z by reflexivity. cbn. clear. lra.
+Qed.
+
+(* LeakyRelu(m) at x = (6, -8): factors 1 and m *)
+Definition lh1 (m : R) : heap := fst (leaky_forward exh m [Some 1%nat] (Some 2%nat)).
+Lemma lh1_eq m : leaky_forward exh m [Some 1%nat] (Some 2%nat) = (lh1 m, Ok 8%nat).
+Proof. reflexivity. Qed.
+
+(* the order of the theorem is the order of bp_topo *)
+Example leaky_order_ex m : topoOrder (lh1 m) 8 = [8; 7; 5; 4; 6; 3; 2; 1; 0]%nat.
+Proof. reflexivity. Qed.
+
+Example leaky_grad_ex rd m :
+  exists hh' gx lg,
+    fold_left (process_node rd idseal) [8; 7; 5; 4; 6; 3; 2]%nat (setGrad (lh1 m) 8 (Some exg), [], Ok tt)
+      = (hh', lg, Ok tt) /\
+    gradOf hh' 1 = Some gx /\ elt gx [0%nat] = 5 /\ elt gx [1%nat] = 7 * m.
+Proof.
+  destruct (leaky_grad 0 draw rd exh (lh1 m) (setGrad (lh1 m) 8 (Some exg)) m 1 8 (Some 2%nat) exx exg [])
+    as (hh' & gx & lg & Ef & _ & _ & _ & Hg & _ & _ & F);
+    [lra|reflexivity|apply wf_vec2|reflexivity|reflexivity|apply lh1_eq|apply sameS_setGrad|reflexivity
+    |apply wf_vec2|reflexivity| |exact I|].
+  - intros k Hk. do 6 (destruct k as [|k]; [reflexivity|]). lia.
+  - assert (Pr : gradOf (setGrad (lh1 m) 8 (Some exg)) 1 = None) by reflexivity.
+    exists hh', gx, (lg ++ []). split; [exact Ef|]. split; [exact Hg|]. split.
+    + destruct (F [0%nat]) as (_ & P & _); [repeat constructor|]. cbn in P. rewrite P by lra. rewrite Pr. cbn. clear. lra.
+    + destruct (F [1%nat]) as (_ & _ & N & _); [repeat constructor|]. cbn in N. rewrite N by lra. rewrite Pr. cbn. clear. lra.
+Qed.
+
+(* Sigmoid at x = (6, -8) *)
+Definition sh1 : heap := fst (sigmoid_forward exh [Some 1%nat] (Some 2%nat)).
+Lemma sh1_eq : sigmoid_forward exh [Some 1%nat] (Some 2%nat) = (sh1, Ok 8%nat).
+Proof. reflexivity. Qed.
+
+Example sigmoid_order_ex : topoOrder sh1 8 = [8; 7; 6; 4; 3; 5; 2; 1; 0]%nat.
+Proof. reflexivity. Qed.
+
+Example sigmoid_grad_ex rd :
+  exists hh' gx lg,
+    fold_left (process_node rd idseal) [8; 7; 6; 4; 3; 5; 2]%nat (setGrad sh1 8 (Some exg), [], Ok tt)
+      = (hh', lg, Ok tt) /\
+    gradOf hh' 1 = Some gx /\
+    elt gx [0%nat] = 5 * (logistic (2 * 3) * (1 - logistic (2 * 3))) /\
+    elt gx [1%nat] = 7 * (logistic (2 * -4) * (1 - logistic (2 * -4))).
+Proof.
+  destruct (sigmoid_grad 0 draw rd exh sh1 (setGrad sh1 8 (Some exg)) 1 8 (Some 2%nat) exx exg [])
+    as (hh' & gx & lg & Ef & _ & _ & _ & Hg & _ & _ & F);
+    [reflexivity|apply wf_vec2|reflexivity|reflexivity|apply sh1_eq|apply sameS_setGrad|reflexivity
+    |apply wf_vec2|reflexivity| |exact I|].
+  - intros k Hk. do 6 (destruct k as [|k]; [reflexivity|]). lia.
+  - assert (Pr : gradOf (setGrad sh1 8 (Some exg)) 1 = None) by reflexivity.
+    exists hh', gx, (lg ++ []). split; [exact Ef|]. split; [exact Hg|]. split.
+    + rewrite (F [0%nat]) by (repeat constructor). rewrite Pr. cbn. ring.
+    + rewrite (F [1%nat]) by (repeat constructor). rewrite Pr. cbn. ring.
+Qed.
+End Ex.
+End GradActExamples.
+
+Print Assumptions tanh_grad.
+Print Assumptions relu_grad.
+Print Assumptions leaky_grad.
+Print Assumptions sigmoid_grad.
+Print Assumptions node_run.
+Print Assumptions sigmoid_structure.
